@@ -45,3 +45,56 @@ package cpuallocator
 //@   ensures[C08] cnt <= F0.Size() && result1 == nil ==> result0.Size() == cnt && result0.IsSubsetOf(F0) && (*from).Equals(F0.Difference(result0))
 //@ loop 0 in (*cpuAllocator).allocateCpus at "range options"
 //@   modifies a.prefer, a.flags
+
+// ---- id filtering ------------------------------------------------------------------------------------------------
+// Filters are pure predicates (closures over the helper's current state; checked at each call site).
+//@ functype IDFilter pure
+
+//@ pure distinctIds(s []idset.ID) bool = forall i int, j int :: 0 <= i && i < j && j < len(s) ==> s[i] != s[j]
+
+//@ func pickIds
+//@   ensures[C08] newobj(result) && 0 <= len(result) && len(result) <= len(idSlice)
+//@   ensures[C08] forall j int :: 0 <= j && j < len(result) ==> (f == nil || f(result[j])) && result[j] in idSlice
+//@   ensures[C08] old(distinctIds(idSlice)) ==> distinctIds(result)
+//@   ensures[C08] forall i int :: 0 <= i && i < len(idSlice) && (f == nil || f(idSlice[i])) ==> idSlice[i] in result
+//@   ensures[C08] forall i int :: 0 <= i && i < len(idSlice) ==> idSlice[i] == old(idSlice[i])
+//@ loop 0 in pickIds at "range idSlice"
+//@   modifies ids[*]
+//@   invariant 0 <= idx && idx <= rangeindex + 1 && len(ids) == len(idSlice) && newobj(ids) && ids != nil
+//@   invariant forall j int :: 0 <= j && j < idx ==> (f == nil || f(ids[j])) && (exists i int :: 0 <= i && i <= rangeindex && old(idSlice[i]) == ids[j])
+//@   invariant old(distinctIds(idSlice)) ==> (forall i int, j int :: 0 <= i && i < j && j < idx ==> ids[i] != ids[j])
+//@   invariant old(distinctIds(idSlice)) ==> (forall j int, i int :: 0 <= j && j < idx && rangeindex < i && i < len(idSlice) ==> ids[j] != old(idSlice[i]))
+//@   invariant forall i int :: 0 <= i && i <= rangeindex && (f == nil || f(old(idSlice[i]))) ==> (exists j int :: 0 <= j && j < idx && ids[j] == old(idSlice[i]))
+//@   invariant forall i int :: 0 <= i && i < len(idSlice) ==> idSlice[i] == old(idSlice[i])
+
+// ---- hardware well-formedness assumed of the topology cache and sysfs (T4) ----------------------------------
+// Thread-sibling sets are the classes of an equivalence (equal or disjoint); package sets are pairwise
+// disjoint; CPU and package id lists have no duplicates.
+//@ pure topoValid(a *allocatorHelper) bool =
+//@    (forall i idset.ID, j idset.ID :: i in a.topology.core && j in a.topology.core ==>
+//@        a.topology.core[i].Equals(a.topology.core[j]) || a.topology.core[i].Intersection(a.topology.core[j]).IsEmpty()) &&
+//@    (forall i idset.ID, j idset.ID :: i in a.topology.pkg && j in a.topology.pkg && i != j ==> a.topology.pkg[i].Intersection(a.topology.pkg[j]).IsEmpty())
+//@ iface github.com/containers/nri-plugins/pkg/sysfs.System.CPUIDs
+//@   ensures newobj(result) && distinctIds(result)
+//@ iface github.com/containers/nri-plugins/pkg/sysfs.System.PackageIDs
+//@   ensures newobj(result) && distinctIds(result)
+
+// what every allocation stage preserves: result/from partition the same set, cnt + |result| is constant
+//@ pure stagePost(a *allocatorHelper) bool = a.result.Union(a.from).Equals(old(a.result.Union(a.from))) && a.result.Intersection(a.from).IsEmpty() &&
+//@    a.cnt >= 0 && a.cnt + a.result.Size() == old(a.cnt + a.result.Size()) && old(a.result).IsSubsetOf(a.result)
+
+// ---- takeIdleCores ------------------------------------------------------------------------------------------------
+//@ pure idleCore(a *allocatorHelper, off cpuset.CPUSet, id idset.ID) bool =
+//@    !a.topology.core[id].Difference(off).IsEmpty() && a.topology.core[id].Difference(off).IsSubsetOf(a.from) && setmin(a.topology.core[id].Difference(off)) == int(id)
+//@ func (*allocatorHelper).takeIdleCores$1 defines
+//@   requires a != nil
+//@   ensures[C08] result == idleCore(a, offline, id)
+
+//@ func (*allocatorHelper).takeIdleCores
+//@   requires wfh(a) && a.sys != nil && topoValid(a)
+//@   modifies a.result, a.from, a.cnt
+//@   ensures[C08] stagePost(a)
+//@ loop 0 in (*allocatorHelper).takeIdleCores at "range cores"
+//@   modifies a.result, a.from, a.cnt
+//@   invariant stagePost(a) && distinctIds(cores)
+//@   invariant forall j int :: rangeindex < j && j < len(cores) ==> idleCore(a, offline, cores[j])
